@@ -17,12 +17,12 @@ for d in sorted(glob.glob(os.path.join(V, "seeded", "*", ""))):
         rcm = m.get("checks_run", {}).get(prop, "")
         caught.append(f"{prop}: {'**caught**' if v else 'missed'} ({rcm}" + (f"; e.g. {fc[0][:90]}" if fc else "") + ")")
     rows.append((m.get("name"), m.get("breaks", ""), m.get("needs", ""), m.get("suite_with_change", ""), m.get("demo_with_change", "")[13:40],
-                 m.get("demo_without_change", "")[13:40], "<br>".join(caught), m.get("note", "")))
+                 m.get("demo_without_change", "")[13:40], "<br>".join(caught), m.get("change", "")))
 out = ["# Seeded changes\n",
        "Each change was written by a fresh sub-agent that saw only the text of one property and its own scratch worktree; it compiles, keeps the",
        "repository's test suite green and breaks the property.  `bin/seed_verify.sh` re-confirmed each one in a fresh worktree of /repo HEAD",
        "(suite with the change; demo with and without the change) and ran the listed checks with `VERIF_REPO=<worktree>`.\n",
-       "| seed | breaks | needs | suite with change | demo with | demo without | checks | note |", "|---|---|---|---|---|---|---|---|"]
+       "| seed | breaks | needs | suite with change | demo with | demo without | checks | change |", "|---|---|---|---|---|---|---|---|"]
 for r in rows:
     out.append("| " + " | ".join(str(x).replace("|", "/") for x in r) + " |")
 open(os.path.join(V, "seeded", "README.md"), "w").write("\n".join(out) + "\n")
